@@ -11,8 +11,8 @@ CHECKS = {
  'C01': dict(
    text='Proof: theorems C01_store_float_arrays / C01_store_int_arrays show that the code-shaped model of Fxp.set_val (float scaling, NumPy rounding, astype, '
         'utils.clip, bit-mask utils.wrap, inaccuracy comparison) equals Spec.quantize and the Spec flag conditions for every core-domain format, all 10 mode pairs, '
-        'arrays of any length; C01_read_back shows get_val is exactly code*2^-n_frac. The tie to /repo is a correspondence run: every carrier x route, exhaustive '
-        'quarter-LSB sweeps of small formats, boundary-biased random formats up to 52 bits, compared with the extracted Spec and model.',
+        'arrays of any length; C01_store_floats_saturate_any_magnitude extends it to every finite double under saturate with n_frac>=0 (scaled value overflowing to infinity, Python-object path when an element exceeds 2^64, arrays mixing huge and fractional elements); C01_read_back shows get_val is exactly code*2^-n_frac. The tie to /repo is a correspondence run: every carrier x route, exhaustive '
+        'quarter-LSB sweeps of small formats, boundary-biased random formats up to 52 bits, far-out-of-range values under both overflow modes, huge floats alone and mixed with fractional ones, compared with the extracted Spec and model.',
    design='7/C01', technique='Coq proof of model = quantizer + differential correspondence (extracted model vs implementation)'),
 
  'C03': dict(
@@ -29,7 +29,7 @@ CHECKS = {
  'C05': dict(
    text='Proof: direction, error bound and tie parity of each rounding mode stated on the stored code without the reference quantizer (C05_floor, C05_ceil, C05_trunc_fix, C05_around, '
         'C05_error_below_lsb) for every exponent; every representable value is a fixed point of all ten mode pairs with no flag (C05_idempotent); quantization under saturate is monotone '
-        '(C05_monotone). Tie: the relations are evaluated with exact rationals directly on the implementation output over the C01 input stream, plus idempotence and sorted-input sweeps.',
+        '(C05_monotone over a common exponent, C05_monotone_any for any two dyadic inputs). Tie: the relations are evaluated with exact rationals directly on the implementation output over the C01 input stream, plus idempotence and sorted-input sweeps.',
    design='7/C05', technique='Coq proof (lia/nia over div/mod by 2^k) + relation checking on implementation output'),
 
  'C10': dict(
@@ -128,7 +128,7 @@ CHECKS = {
 
  'C02': dict(
    text='Proof: range membership is an invariant of EVERY call of the model of set_val, whatever array / dtype / raw flag / modes it is given (C02_every_write_in_range, words to 53 bits; C02_overflow_in_range for every width), and of the one direct buffer write (>> in keep mode, C02_rshift_keep_in_range); '
-        'since every public route ends in one of these writes, every reachable object holds in-range codes; n_int by definition, upper/lower/precision by C17_limits, dtype by C12. Saturation side for Python integers of ANY size (C02_saturate_side_int). PARTIAL: the saturation side for huge floats is modelled, not a theorem. '
+        'since every public route ends in one of these writes, every reachable object holds in-range codes; n_int by definition, upper/lower/precision by C17_limits, dtype by C12. Saturation side for Python integers of ANY size (C02_saturate_side_int) and for floats of any finite magnitude (C02_saturate_side_float). '
         'Tie: random programs of up to 12 public operations over a pool of objects (29 operation kinds, all sizing policies and shifting modes), every live object checked after every step with exact rationals (range, n_int, upper/lower/precision through scale/bias, dtype); floats to 1.7e308 and integers to 2^1000 under saturate against Spec.',
    design='7/C02', technique='Coq proof (range invariant of every write) + program-level exploration with exact well-formedness checks'),
 }
